@@ -241,6 +241,7 @@ def homog_model_run(cfg):
     kind = cfg.get("profile", "step")
     if kind == "step": m.setCompositionStep(0.3, 0.7, 0.5e-4, "Y")
     elif kind == "linear": m.setCompositionLinear(0.25, 0.75, "Y")
+    elif kind == "uniform": m.setCompositionLinear(0.5, 0.5, "Y")         # nothing to homogenise: with closed ends the profile simply stays
     else: m.setCompositionInBounds(0.6, 0.3e-4, 0.6e-4, "Y"); m.compositionProfile.compositionSteps["Y"].insert(0, (m.compositionProfile.LINEAR, (), dict(leftValue=0.3, rightValue=0.3)))
     bc = cfg.get("bc", ("flux", 0.0, "flux", 0.0))
     Tm = {"flux": BoundaryConditions.FLUX_BC, "comp": BoundaryConditions.COMPOSITION_BC}
@@ -299,5 +300,7 @@ def homog_model_configs():
     out.append(dict(tag="homog-flux-bc", bc=("flux", 2e-13, "flux", -1e-13), calls=[3.0e5, 3.0e5], profile="linear"))
     out.append(dict(tag="homog-dirichlet-left", bc=("comp", 0.35, "flux", 0.0), calls=[3.0e5, 3.0e5]))
     out.append(dict(tag="homog-dirichlet-both-rk4", bc=("comp", 0.35, "comp", 0.65), calls=[4.0e5], iter="rk4", profile="linear"))
+    out.append(dict(tag="homog-uniform-closed", profile="uniform", calls=[2.0e5, 2.0e5], still=True))
+    out.append(dict(tag="homog-uniform-flux-bc-rk4", profile="uniform", bc=("flux", 2e-13, "flux", 0.0), calls=[3.0e5], iter="rk4"))
     out.append(dict(tag="homog-bounded-nocache", profile="bounded", cache=False, calls=[2.0e5, 2.0e5], eps=0.0))
     return out
